@@ -253,6 +253,11 @@ pub open spec fn two_hop_v1_legs(a0: TwoHopSwap<'_>, a1: TwoHopSwap<'_>, amount:
         &&& (!a_to_b_one ==> moved(a0.token_owner_account_one_b.k, a0.token_vault_one_b.k, u1.amount_b) && moved(a0.token_vault_one_a.k, a0.token_owner_account_one_a.k, u1.amount_a))
         &&& (a_to_b_two ==> moved(a0.token_owner_account_two_a.k, a0.token_vault_two_a.k, u2.amount_a) && moved(a0.token_vault_two_b.k, a0.token_owner_account_two_b.k, u2.amount_b))
         &&& (!a_to_b_two ==> moved(a0.token_owner_account_two_b.k, a0.token_vault_two_b.k, u2.amount_b) && moved(a0.token_vault_two_a.k, a0.token_owner_account_two_a.k, u2.amount_a))
+        // each leg reports ITS pool, direction, prices before / after, moved amounts and fee split (plain SPL tokens: no transfer fee)
+        &&& traded_emitted(Traded { whirlpool: k1, a_to_b: a_to_b_one, pre_sqrt_price: w1.sqrt_price, post_sqrt_price: u1.next_sqrt_price, input_amount: in_of(u1, a_to_b_one), output_amount: out_of(u1, a_to_b_one),
+                input_transfer_fee: 0, output_transfer_fee: 0, lp_fee: u1.lp_fee, protocol_fee: u1.next_protocol_fee })
+        &&& traded_emitted(Traded { whirlpool: k2, a_to_b: a_to_b_two, pre_sqrt_price: w2.sqrt_price, post_sqrt_price: u2.next_sqrt_price, input_amount: in_of(u2, a_to_b_two), output_amount: out_of(u2, a_to_b_two),
+                input_transfer_fee: 0, output_transfer_fee: 0, lp_fee: u2.lp_fee, protocol_fee: u2.next_protocol_fee })
     }
 }
 //@ fn instructions/two_hop_swap.rs handler -> r as=two_hop_swap_handler tags=C17,C03
